@@ -79,6 +79,11 @@ CLAIMED["C02"] = dict(
     text="Random trees (all shapes, gaps, XML-special / parenthesis / non-ASCII / astral characters, field lengths 7/8/15/16, lemma/morph/edge present or None, head and split flags) are written by all five writers under random subsets of the documented output options. Independent decoders must recover the same sentence id, tokens, order, decorated labels, edges and dominance; the export decoder enforces tokens-first, unique consecutive numbering from 500, resolving parents, children numbered below parents and matching #BOS/#EOS; TIGER-XML must parse; bracket formats must show the documented parenthesis names in tree and sentence part; the bracket writer must refuse exactly the discontinuous trees (or write nothing under brackets_skipdisco); terminals output must be exactly the sentence.",
     note="Trusted: decoders in vlib/codecs_tree.py, xml.etree. Not generated: whitespace/control characters, empty fields, words of the form #ddd/#BOS/#EOS, parentheses in constituent labels (formats cannot carry them). TIGER-XML is written without label-decoration options.",
     ref="DESIGN.md section 2, C02")
+CLAIMED["C01"] = dict(
+    tech="Hypothesis corpora encoded by independent encoders with generated layouts and reader options, compared with model + expectation function; exhaustive enumeration of all bracket strings up to length 7/9 against a hand-written recogniser; single-edit mutations of well-formed bracket files",
+    text="Corpora of 1..4 (thorough 8) sentences over all tree shapes and hostile alphabets are written by independent encoders in export v3/v4 (headers, comments, secondary-edge columns, tabs or blanks, shuffled constituent lines, arbitrary numbering), brackets (arbitrary whitespace at every optional position, empty or labelled root, several sentences per line, material outside groups, empty POS), discobrackets and TIGER-XML (permuted attributes / nt / edge order, arbitrary ids, secedge noise, id styles, two encodings), plain or gzip, and read back with drawn reader options; the reader must yield exactly one well-formed tree per sentence, in order, equal to the model after an independently written expectation function of the options (gf_split, gf_separator, replace_parens, continuous, brackets_firstid, brackets_emptypos), and print nothing under quiet. Every string over {( ) blank a b} up to length 7 (thorough 9), with and without brackets_emptypos, is given to the bracket reader and to a hand-written recogniser: same trees, ValueError exactly for ill-formed input (including a group still open at end of input).",
+    note="Trusted: encoders in vlib/codecs_tree.py, the recogniser and expectation functions in checks/C01.py. Not generated: values the formats cannot carry (see ASSUMPTIONS in the evidence). disco_reordered is only checked structurally; gf_split with a non-default separator only on labels without co-index.",
+    ref="DESIGN.md section 2, C01")
 PENDING_REASON = "check not built yet in this round (planned, see DESIGN.md section 6); not claimed until it is quiet on the unchanged tree"
 
 
